@@ -166,6 +166,103 @@ fn c13_wide_items(reg: &Registry, st: &mut Stats) -> CaseResult {
         }
     }
     st.exhaustive_parts.push("16-bit offset types: open last item of 65 520 .. 65 600 elements, then one more push".into());
+    user_default_probe(st)
+}
+
+/// An item type whose `FlatDefault` is written by hand and whose default state (12 bytes) is larger than
+/// MIN_SIZE (8): `push_default` can then be refused by the item's own emplacer although the slot and
+/// MIN_SIZE bytes of payload fit. The generated corpus only has the defaults the macro derives.
+mod userdef {
+    #[flatty::flat(sized = false)]
+    pub struct UserDef {
+        pub id: u32,
+        pub bytes: flatty::FlatVec<u8, u8>,
+    }
+    impl flatty::traits::FlatDefault for UserDef {
+        type DefaultEmplacer = UserDefInit<u32, flatty::vec::FromArray<u8, 4>>;
+        fn default_emplacer() -> Self::DefaultEmplacer {
+            UserDefInit { id: 1, bytes: flatty::vec::FromArray([0xaa; 4]) }
+        }
+    }
+}
+
+fn user_default_probe(st: &mut Stats) -> CaseResult {
+    use crate::buf::Guarded;
+    use flatty::{prelude::*, FlexVec};
+    use userdef::UserDef;
+    let show = |v: &FlexVec<UserDef, u8>| -> (usize, usize, Vec<(u32, Vec<u8>)>) { (v.len(), v.size(), v.iter().map(|x| (x.id, x.bytes.as_slice().to_vec())).collect()) };
+    for fill in [0u8, 0xff, 0x5a] {
+        for n in 0usize..=64 {
+            let mut buf = Guarded::new_aligned(n, 4, 0, n % 2 == 0);
+            buf.slice().fill(fill);
+            st.eval(1);
+            let r = lib(|| -> Result<(), String> {
+                // the item type on its own: default_in_place needs 12 bytes
+                {
+                    let mut b2 = vec![fill; n + 4];
+                    let off = b2.as_ptr().align_offset(4);
+                    match UserDef::default_in_place(&mut b2[off..off + n]) {
+                        Ok(x) => {
+                            if n < 12 || x.id != 1 || x.bytes.as_slice() != [0xaa; 4] {
+                                return Err(format!("UserDef::default_in_place into {} bytes gives id {} bytes {:?}", n, x.id, x.bytes.as_slice()));
+                            }
+                        }
+                        Err(_) if n < 12 => {}
+                        Err(e) => return Err(format!("UserDef::default_in_place into {} bytes fails: {:?}", n, e)),
+                    }
+                }
+                let Ok(v) = FlexVec::<UserDef, u8>::default_in_place(buf.slice()) else {
+                    return if n < 4 { Ok(()) } else { Err(format!("FlexVec<UserDef, u8>::default_in_place into {} bytes fails", n)) };
+                };
+                let mut model: Vec<(u32, Vec<u8>)> = vec![];
+                loop {
+                    let before = show(v);
+                    let image: Vec<u8> = v.as_bytes().to_vec();
+                    match v.push_default() {
+                        Ok(_) => {
+                            model.push((1, vec![0xaa; 4]));
+                            let now = show(v);
+                            if now.0 != model.len() || now.2 != model {
+                                return Err(format!("after {} accepted push_default calls the vector is {:?}", model.len(), now));
+                            }
+                        }
+                        Err(_) => {
+                            let now = show(v);
+                            if now != before {
+                                return Err(format!("a refused push_default changed the vector: before {:?}, after {:?}", before, now));
+                            }
+                            // every byte that belongs to the content is as it was
+                            let after: Vec<u8> = v.as_bytes().to_vec();
+                            if after[..before.1] != image[..before.1] {
+                                return Err(format!("a refused push_default changed content bytes of the vector ({} items)", before.0));
+                            }
+                            break;
+                        }
+                    }
+                    if model.len() > 32 {
+                        return Err("push_default never refuses".into());
+                    }
+                }
+                FlexVec::<UserDef, u8>::validate(v.as_bytes()).map_err(|e| format!("after the refused push_default the vector does not validate: {:?}", e))?;
+                // each accepted item needs 4 + 12 bytes (the last one 4 + 12 as well: default state of 9 bytes rounded up)
+                let expect = if n < 4 { 0 } else { (n / 4 * 4) / 16 };
+                if model.len() != expect {
+                    return Err(format!("{} items with a 12-byte default state were accepted into {} bytes (expected {})", model.len(), n, expect));
+                }
+                Ok(())
+            });
+            match r {
+                Err(p) => return Err(Violation { key: "panic".into(), msg: format!("FlexVec<UserDef, u8> in {} bytes (prefill {:#04x}): panicked: {}", n, fill, p) }),
+                Ok(Err(m)) => return Err(Violation { key: "user-default".into(), msg: format!("FlexVec<UserDef, u8> in {} bytes (prefill {:#04x}): {}", n, fill, m) }),
+                Ok(Ok(())) => {}
+            }
+            if let Err(m) = buf.check() {
+                return Err(Violation { key: "canary".into(), msg: format!("FlexVec<UserDef, u8> in {} bytes: {}", n, m) });
+            }
+            st.nontrivial(("userdef", n, fill), || serde_json::json!({"scenario": "push_default of an item with a hand-written FlatDefault until refused", "buffer": n, "prefill": fill}));
+        }
+    }
+    st.exhaustive_parts.push("FlexVec<UserDef, u8> (hand-written FlatDefault, default state larger than MIN_SIZE): push_default until refused, every buffer length 0..=64".into());
     Ok(())
 }
 
